@@ -5,7 +5,7 @@
    calls of any length, arbitrary (equal, past, negative) time points, arbitrary idents (duplicates), arbitrary clock
    readings; every interleaving of the worker with foreign schedule / cancel / tick / spurious wake-up / stop events;
    every sequence of interval-generator / stop-token operations. *)
-From Cocls Require Import Base BaseProofs TimerDefs TimerProofs Timer2Proofs.
+From Cocls Require Import Base BaseProofs TimerDefs TimerProofs Timer2Proofs Timer3Proofs.
 Require Import Sorted.
 Local Open Scope Z_scope.
 
@@ -103,22 +103,42 @@ Theorem c12_destroy_cancels : forall s, reachable s -> alive s = true ->
 Proof. exact destroy_cancels. Qed.
 Print Assumptions c12_destroy_cancels.
 
-(* worker: never blocked past the time point of any entry, never out of bounds, never early *)
-Theorem c12_idle_wakes_on_time : forall evs, let w := wrun wst0 evs in
+(* worker (worker_coro), every interleaving of foreign schedule / cancel / tick / spurious wake-up / stop events with the
+   worker's own steps, with either wait primitive `aw`: never out of bounds; once the clock has reached the time point of
+   ANY array entry an unfinished worker is runnable (after entering the wait it had decided on); never early *)
+Theorem c12_idle_wakes_on_time : forall aw evs, let w := wrun aw wst0 evs in
   w_err w = false /\
-  (forall e, In e (w_sched w) -> e_tp e <= w_now w -> runnable w = true) /\
+  (forall e, In e (w_sched w) -> e_tp e <= w_now w -> w_mode w <> WFin -> runnable (wstep aw w WBlock) = true) /\
   (forall t now, In (t, now) (w_done w) -> e_tp t <= now).
 Proof. exact idle_wakes_on_time. Qed.
 Print Assumptions c12_idle_wakes_on_time.
 
-Theorem c12_worker_resolves_due : forall evs, let w := wrun wst0 evs in
+Theorem c12_worker_resolves_due : forall aw evs, let w := wrun aw wst0 evs in
   w_stop w = false -> runnable w = true ->
   (exists e, In e (pending (w_sched w)) /\ e_tp e <= w_now w) ->
-  exists t, w_done (wstep w WIter) = (t, w_now w) :: w_done w /\ In t (pending (w_sched w)) /\
+  exists t, w_done (wstep aw w WIter) = (t, w_now w) :: w_done w /\ In t (pending (w_sched w)) /\
             (forall u, In u (pending (w_sched w)) -> e_tp t <= e_tp u) /\
-            Permutation (pending (w_sched w)) (t :: pending (w_sched (wstep w WIter))).
+            Permutation (pending (w_sched w)) (t :: pending (w_sched (wstep aw w WIter))).
 Proof. exact worker_resolves_due. Qed.
 Print Assumptions c12_worker_resolves_due.
+
+(* thread mode / start(awaitable) mode, each once: accepted = completed by the worker + taken by remove/cancel + pending *)
+Theorem c12_worker_each_once : forall aw evs, let w := wrun aw wst0 evs in
+  Permutation (w_in w) (map fst (w_done w) ++ w_rm w ++ pending (w_sched w)).
+Proof. exact worker_each_once. Qed.
+Print Assumptions c12_worker_each_once.
+
+(* current code (stop-token-aware wait): a stop request landing in ANY window ends the worker, so ~scheduler returns *)
+Theorem c12_stop_ends_worker : forall evs, let w := wrun true wst0 evs in
+  w_stop w = true -> w_mode (wrun true w [WBlock; WIter]) = WFin.
+Proof. exact stop_ends_worker. Qed.
+Print Assumptions c12_stop_ends_worker.
+
+(* F-C12d: with the old plain wait_until the stop request can be lost for ever *)
+Theorem c12_lost_stop_before_repair : let w := wrun false wst0 [WIter; WStop; WBlock] in
+  w_stop w = true /\ forall evs, Forall quiet evs -> w_mode (wrun false w evs) = WWait None false.
+Proof. exact lost_stop_old. Qed.
+Print Assumptions c12_lost_stop_before_repair.
 
 (* interval() + stop token: request_stop never self-deadlocks, nothing crashes *)
 Theorem c12_interval_no_deadlock : forall ops,
@@ -126,6 +146,24 @@ Theorem c12_interval_no_deadlock : forall ops,
   Forall (fun ob => exists t, ob = 0 :: t \/ ob = 1 :: t) (interval_run ops).
 Proof. exact interval_no_deadlock. Qed.
 Print Assumptions c12_interval_no_deadlock.
+
+(* cancellation through a stop token (interval generator): exactly the generator's own pending sleep is cancelled *)
+Theorem c12_interval_stop_cancels : forall ops, let s := istate ist0 ops in
+  i_stop s = false ->
+  exists s1 ob, istep false s [3] = IOk s1 ob /\ i_stop s1 = true /\ i_owner s1 = false /\
+    (i_gen s = GSleeping ->
+       (exists t, pending (i_sched s) = [t] /\ e_id t = tag) /\ pending (i_sched s1) = [] /\ i_gen s1 = GDone /\
+       ob = [0; 2; Z.of_nat (length (i_sched s1))]) /\
+    (i_gen s <> GSleeping ->
+       pending (i_sched s) = [] /\ pending (i_sched s1) = [] /\ i_gen s1 = i_gen s /\
+       ob = [0; 0; Z.of_nat (length (i_sched s1))]).
+Proof. exact interval_stop_cancels. Qed.
+Print Assumptions c12_interval_stop_cancels.
+
+(* the property oracle run on implementation traces accepts every trace of the model: it is not stricter than what is proved *)
+Theorem c12_oracle_sound : forall ops, timer_oracle ops (timer_run ops) = true.
+Proof. exact oracle_sound. Qed.
+Print Assumptions c12_oracle_sound.
 
 (* non-vacuity: a reachable state with duplicate idents, an emptied slot inside the array, equal and past time points;
    two cancels of a triplicate id hit two different sleeps (array order), the third is cancelled by the destructor; expiry order; destructor cancels the rest *)
